@@ -97,6 +97,18 @@ def check(prog, rep):
             rep.ob("R12.1", construct, False,
                    f"reads {recv}.{n.attr} while building derived artefacts without an isinstance({recv}, Constant) guard: if {recv} is a Parameter its current value is frozen into a closure / rule term / LP datum / degree and later Parameter.set() calls are ignored",
                    loc=loc, detail="eager-read")
+    for fi in prog.functions.values():
+        if fi.module.name in SKIP_MODULES:
+            continue
+        for n in walk_local(fi.node):
+            if isinstance(n, ast.Call) and dotted(n.func) == "getattr" and len(n.args) >= 2 and isinstance(n.args[1], ast.Constant) and n.args[1].value in ("value", "_value"):
+                recv = src(n.args[0])
+                ok = implied_constant(n, recv, local_assignments(fi.node))
+                n_sites += 1
+                rep.ob("R12.1", f"{fi.qual.split(':')[1]}:getattr({recv}, 'value')", ok,
+                       f"dominated by isinstance({recv}, Constant)" if ok else
+                       f"reads the value of {recv} through getattr without an isinstance({recv}, Constant) guard: a Parameter has a .value too, so its current value is folded into the built artefact",
+                       loc=f"{fi.module.rel}:{n.lineno}", detail="eager-read")
     rep.saw("`.value` read sites classified", n_sites)
     # isinstance tests that put Parameter next to Constant in folding code
     for fi in prog.functions.values():
